@@ -58,6 +58,18 @@ func gen(idx int) ccase {
 		c.MaxLen = 9000 // the race detector makes very long lines disproportionately slow
 	}
 	c.Pattern = r.Pick([]string{"burst", "trickle", "mixed", "mixed"})
+	if idx%8 == 3 {
+		// the endpoint keeps the connection open but stops reading for a while in the middle of the hand-off, with
+		// more traffic than the io buffer and the kernel's socket buffers absorb: a write blocks half done and is
+		// resumed later. Still the healthy steady state: the connection never goes down.
+		c.Pattern = "stall"
+		c.IoBuf = r.PickInt([]int{4096, 65536})
+		c.ConnBuf = r.PickInt([]int{100, 1000})
+		c.Flush = r.PickInt([]int{1, 10, 100})
+		c.Pickle = false
+		c.Lines = mon.N(12000, 32000)
+		c.MaxLen = 1100
+	}
 	return c
 }
 
@@ -66,6 +78,10 @@ func mkLine(c ccase, r *mon.Rng, i int) []byte {
 	base := fmt.Sprintf("c05.%d.n%d", c.Index, i)
 	tail := fmt.Sprintf(" %d %d", i, 1500000000+i)
 	var want int
+	if c.Pattern == "stall" {
+		pad := r.Range(900, 1100) - len(base) - len(tail)
+		return []byte(base + "." + strings.Repeat("x", pad-1) + tail)
+	}
 	switch r.Intn(6) {
 	case 0:
 		want = 5
@@ -89,7 +105,11 @@ func mkLine(c ccase, r *mon.Rng, i int) []byte {
 }
 
 func runCase(res *mon.Result, c ccase) {
-	ep := mon.NewEndpoint(mon.Mode{})
+	mode := mon.Mode{}
+	if c.Pattern == "stall" {
+		mode.RcvBuf = 8192
+	}
+	ep := mon.NewEndpoint(mode)
 	defer ep.Close()
 	t := mon.NewTable("none", "none", false, "/nonexistent-spool")
 	key := fmt.Sprintf("c05r%d", c.Index)
@@ -153,6 +173,11 @@ func runCase(res *mon.Result, c ccase) {
 	for i, l := range handed {
 		buf := append([]byte(nil), l...)
 		rt.Dispatch(buf)
+		if c.Pattern == "stall" && i == len(handed)/10 {
+			stalled := mode
+			stalled.NoRead = true
+			ep.SetMode(stalled)
+		}
 		switch c.Pattern {
 		case "trickle":
 			if i%7 == 0 {
@@ -165,6 +190,11 @@ func runCase(res *mon.Result, c ccase) {
 			}
 			burst--
 		}
+	}
+	if c.Pattern == "stall" {
+		time.Sleep(time.Duration(r.Range(300, 800)) * time.Millisecond)
+		ep.SetMode(mode)
+		res.Count("stalls", 1)
 	}
 	// quiescence by steps: received + dropped == handed (stream parsed incrementally)
 	var got [][]byte
@@ -323,7 +353,7 @@ func main() {
 		defer pprof.StopCPUProfile()
 	}
 	res := mon.NewResult("C05")
-	res.Rule = "configurations generated from (seed,index): iobuf in {1,2,3,5,16,64,100,4096,65536,2000000}, connbuf in {1,8,1000,30000}, flush in {1,10,100}ms, pickle 1/4, line lengths 5B..4x iobuf (cap 9000) biased to the buffer size, hand-off pattern burst/trickle/mixed; non-trivial = at least half of the handed lines were received and checked; distinct = (iobuf,connbuf,flush,pickle,pattern)"
+	res.Rule = "configurations generated from (seed,index): iobuf in {1,2,3,5,16,64,100,4096,65536,2000000}, connbuf in {1,8,1000,30000}, flush in {1,10,100}ms, pickle 1/4, line lengths 5B..4x iobuf (cap 9000) biased to the buffer size, hand-off pattern burst/trickle/mixed, every 8th case a stall (1 kB lines, the endpoint stops reading for 0.3-0.8 s mid-stream with a small receive buffer, then resumes on the same connection); non-trivial = at least half of the handed lines were received and checked; distinct = (iobuf,connbuf,flush,pickle,pattern)"
 	res.Assume("the loopback endpoint reads as fast as it can (healthy); a run in which the connection was re-established is set aside as inconclusive")
 	res.Assume("pickle frames are decoded with the og-rek dependency here; CPython decoding is C16")
 	n := mon.N(48, 800)
